@@ -37,6 +37,8 @@ func Collators() []CollatorCfg {
 // CollSpec is the data of one collation universe.
 type CollSpec struct {
 	Name     string
+	Setup    []string // inserted before the closure starts (never part of the alphabet)
+	SetupDel []string // then deleted
 	Free     []string
 	Probes   []string
 	Prefixes []string
@@ -75,6 +77,26 @@ func NewCollUniverseD(sp CollSpec, cfg CollatorCfg, keyType string, custom bool,
 	var kept []string
 	as := AlphaSpec{Name: sp.Name, NVals: sp.NVals, NoAutoP: true}
 	as.Free = filter(sp.Free, &kept)
+	// setup keys may coincide with free keys (initially present ones) but not be collator-equal to a different key
+	for _, s := range sp.Setup {
+		ok := true
+		for _, k := range kept {
+			if k != s && oracle.CompareString(k, s) == 0 {
+				ok = false
+			}
+		}
+		if ok {
+			as.Setup = append(as.Setup, s)
+			dup := false
+			for _, k := range kept {
+				dup = dup || k == s
+			}
+			if !dup {
+				kept = append(kept, s)
+			}
+		}
+	}
+	as.SetupDel = sp.SetupDel
 	as.Probes = sp.Probes // never stored: may be collator-equal to a stored key (must then be reported absent)
 	if sp.Prefix {
 		as.Prefixes = sp.Prefixes
@@ -161,6 +183,18 @@ func NewCollUniverseD(sp CollSpec, cfg CollatorCfg, keyType string, custom bool,
 	return u.Finish()
 }
 
+// collFan: n characters x {"1","2"} as setup; the closure works on keys under the first, a middle and a new character.
+func collFan(name string, n int) CollSpec {
+	var setup []string
+	ch := func(i int) string { return string(rune(0x4E00 + i)) }
+	for i := 0; i < n; i++ {
+		setup = append(setup, ch(i)+"1", ch(i)+"2")
+	}
+	return CollSpec{Name: name, Setup: setup, SetupDel: []string{ch(0) + "2", ch(n/2) + "1"},
+		Free:   []string{ch(0) + "1", ch(0) + "2", ch(n/2) + "1", ch(n) + "1", ch(n) + "2"},
+		Probes: []string{ch(1) + "3", ch(n+1) + "1", ch(2)}}
+}
+
 func CollFamilies() []CollSpec {
 	P16 := rep('p', 16)
 	return []CollSpec{
@@ -176,6 +210,10 @@ func CollFamilies() []CollSpec {
 		{Name: "VALS", Free: []string{"a", "A", "á", "ab", P16 + "x"}, NVals: 2},
 		// strings without any primary weight (lone combining marks) next to the empty string: their sort keys differ from the
 		// empty string's only behind its leading separators; probes that are completely ignorable (equal sort key to "")
+		// every node class on the lookup path of the hand-written collation tree, with inner nodes below it:
+		// 7, 20 and 52 characters with pairwise different primary weights (consecutive Han ideographs differ in the
+		// last byte of a three-byte weight), each followed by two different digits
+		collFan("CFAN16", 7), collFan("CFAN48", 20), collFan("CFAN256", 52),
 		{Name: "IGNORABLE", Free: []string{"", "\u0301", "\u0301\u0300", "a", "\u0300", "a\u0301"}, Probes: []string{"\u00ad", "a\u00ad", "\u0302", "\u0300\u0301"}},
 	}
 }
